@@ -116,7 +116,9 @@ def correspondence(ctx, built):
 
 
 # ------------------------------------------------------------------ float: superposition on real classes
-SUP_TOL = 1e-11      # relative to the largest term of the sum
+SUP_TOL = 1e-11      # relative to the largest term of the sum ...
+NOISE_FACTOR = 1000.0   # ... or this many times the evaluation's own sensitivity to rounding-level pose changes
+                        # (ill-conditioned Tetrahedron / CylinderSegment points reach 1e-10 and more)
 
 
 def pad_path(a, M):
@@ -163,6 +165,12 @@ def sup_fails(dentries, dobs, field, sumup):
         return None
     dev = float(np.abs(got - exp).max()) / scale if scale > 0 else float(np.abs(got - exp).max())
     if dev > SUP_TOL:
+        try:
+            nf = l2b.noise_floor(dentries, dobs, field)
+        except Exception:   # pylint: disable=broad-except
+            nf = 0.0
+        if dev <= NOISE_FACTOR * nf:
+            return None
         return ("sumup" if sumup else "collection-sum",
                 f"{field} of the source list deviates by {dev:.2e} (relative to the largest single-source field) from the "
                 "explicit sum of single-source calls")
@@ -316,6 +324,9 @@ def run(ctx):
                          "<= 3 are enumerated. A case is non-trivial when it holds a collection. float: real classes, "
                          "list call vs explicit sums of single-source calls; linearity F(a e1 + b e2) per class")
     ctx.trusted += [
+        "translator translate/gen_reduce.py (fail-closed python-ast -> Gallina for the collection loop and the sumup "
+        "statement of _getBH_level2; index arithmetic translated as written); Props/C05.v proves the translated "
+        "loop equal to the model's loop on every run",
         "hand models coq/Model/Level2Model.v (data flow incl. the literal slice-sum/delete loop) and "
         "coq/Model/Level2Flat.v (format_obj_input / filter_objects / format_src_inputs), tied by the exact "
         "correspondence with stub sources; getBH = spec is proved in Proofs/Level2A-E (shared with C04/C06)",
@@ -325,7 +336,8 @@ def run(ctx):
         "circle branch) are covered by the numerical search only",
         "np.sum / np.delete on axis 0 are modelled as list functions (sum_blocks, delete_range), not verified",
     ]
-    built = ctx.build_props()
+    ok = ctx.regen(["GenReduce"])
+    built = ctx.build_props() and ok
     if ctx.tier == "thorough" and built:
         ctx.coqchk("MV.Props.C05")
     ctx.partial += ["C05_linear_in_excitation_partial_dipole", "C05_linear_in_excitation_partial_sphere",
